@@ -312,6 +312,9 @@ func runC12(c *sim.Ctx) *sim.Violation {
 	typ := c12Types[t.Int(len(c12Types))]
 	name := ref.TypeNames[typ]
 	n := 1 + t.Int(24)
+	if c.Thorough && t.Bool(1, 4) {
+		n = 25 + t.Int(56)
+	}
 	var ops []drv.Op
 	for i := 0; i < n; i++ {
 		ops = append(ops, c12Op(g, typ))
